@@ -130,7 +130,9 @@ func (c *Ctx) c04ElemConds(rule string) []elemCond {
 func rulesC04(c *Ctx) {
 	R := c.R
 	R.Rule("R1", "for every input element: length cap, keyset hit (all keysets), key hit for the amount, C decodes and parses, crypto.Verify true with the right arguments — before signing (swap) and before paying/settling (melt)", 25)
+	R.Rule("R2", "crypto.Verify compares the full point k*Y with C (shared with C10.R7)", 1)
 	c.vocabProblems("R1")
+	c.ruleFullPointCompare("R2")
 	conds := c.c04ElemConds("R1")
 	if conds == nil {
 		return
